@@ -1221,3 +1221,29 @@ def c05_design(ctx):
 
 REGISTRY["C05"]["phases"] = c05_phases
 REGISTRY["C05"]["design"] = c05_design
+
+
+# ---- the repository's command line example (lms-demo): file conventions, validated by the same judges ------
+def demo_phase(ctx, tag):
+    import democli
+    return {"tag": tag + "-lms-demo-cli", "groups": democli.demo_groups(ctx["tier"] == "quick"), "controls": False,
+            "space": "examples/lms-demo.rs driven through files: genkey (aux file shrunk and MACed), complete lifetime of sign (key file "
+                     "advanced through the callback, signature file), verify, tampered message, refusal after exhaustion"}
+
+
+def c08_phases_with_demo(ctx):
+    ph = c08_phases(ctx)
+    if ctx["tier"] != "quick":
+        ph.append(demo_phase(ctx, "c08"))
+    return ph
+
+
+def c04_phases_with_demo(ctx):
+    ph = api_phases(ctx, "c04")
+    if ctx["tier"] != "quick":
+        ph.append(demo_phase(ctx, "c04"))
+    return ph
+
+
+REGISTRY["C08"]["phases"] = c08_phases_with_demo
+REGISTRY["C04"]["phases"] = c04_phases_with_demo
